@@ -133,6 +133,15 @@ impl<K: SimKey, S: HB> Subject for TwoQSubj<K, S> {
             pub_is_empty: c.is_empty(),
         }
     }
+    fn iter_probe(&self, list: usize) -> Option<(Vec<(u32, u64)>, Vec<(u32, u64)>, usize)> {
+        let c = self.c.as_ref()?;
+        let cv = |(k, v): (&K, &TV)| (k.raw().0, v.val);
+        Some(match list {
+            0 => (lib!(c.recent_iter()).map(cv).collect(), lib!(c.recent_iter()).rev().map(cv).collect(), c.recent_len()),
+            1 => (lib!(c.frequent_iter()).map(cv).collect(), lib!(c.frequent_iter()).rev().map(cv).collect(), c.frequent_len()),
+            _ => (lib!(c.ghost_iter()).map(cv).collect(), lib!(c.ghost_iter()).rev().map(cv).collect(), c.ghost_len()),
+        })
+    }
     fn fork(&self) -> Option<Box<dyn Subject>> {
         None
     }
